@@ -103,6 +103,16 @@ def analyse_prox(call, resolver, local_kin):
                 srcs = [norm_src(v) for v in vals]
                 linked = [s for s in srcs if "i_N" in s]
                 const = [s for s in srcs if s in ("self.dt", "1.0", "dt")]
+                # 0.0: zero reservoir of a law whose normal contact is not active - only under the marker test `<i_N> is None`
+                from .model import guards_of as _guards_of, parent as _parent
+                for v in vals:
+                    if norm_src(v) in ("0.0", "0"):
+                        st = _parent(v)
+                        fn_ = st
+                        while fn_ is not None and not isinstance(fn_, (ast.FunctionDef, ast.Lambda)):
+                            fn_ = _parent(fn_)
+                        if st is not None and fn_ is not None and any(pol and t.endswith(" is None") and "i_N" in t for (t, pol) in _guards_of(st, fn_)):
+                            const.append(norm_src(v))
                 if linked and len(linked) + len(const) == len(srcs):
                     ok_z = True
                     # linked normal force must be a normal-force variable, not friction
